@@ -415,6 +415,9 @@ func (w *worker) runSel(c *selCase, raw []byte) {
 			// ---- C08 composition (oracle-free)
 			if P["C08"] && len(c.Path.Funcs) == 0 && (mi == 0 || m.Share) {
 				w.checkCompose(c, m, kinds, raw)
+			} else if P["C08"] && allFilterFuncs(c.Path.Funcs) && mi == 0 {
+				// a filter function is a step like any other: P.f() is $.f() applied to every value P selects
+				w.checkComposeFuncs(c, m, kinds, raw)
 			}
 		}
 	}
@@ -986,4 +989,58 @@ func (w *worker) checkOrder(c *selCase, text, kinds string, raw []byte) {
 		}
 	}
 	w.distinct(fmt.Sprintf("%s|%d", kinds, nkeys))
+}
+
+func allFilterFuncs(fs []Func) bool {
+	for _, f := range fs {
+		if f.K != "ff" {
+			return false
+		}
+	}
+	return len(fs) > 0
+}
+
+// checkComposeFuncs: C08 for paths that end in filter functions.  P.f().g() == concat over P's results v of
+// $.f().g() on v (a value whose function fails contributes nothing); three real retrievals, no expected values.
+func (w *worker) checkComposeFuncs(c *selCase, m Mode, kinds string, raw []byte) {
+	cfg := modelConfig(nil, false)
+	retrieve := func(text string, doc interface{}) resp {
+		pr := safeParse(text, &cfg)
+		if pr.Err != nil || pr.Panic != nil {
+			return resp{Panic: fmt.Sprintf("parse failed: %v %v", pr.Err, pr.Panic)}
+		}
+		return safeCall(pr.F, doc)
+	}
+	doc := c.Doc.ToGo(m)
+	before := snap(doc)
+	steps, ftext := c.Path.Steps, funcsText(c.Path.Funcs)
+	if len(steps) == 0 || stepsUseRoot(steps) {
+		return
+	}
+	whole := retrieve("$"+stepsText(steps)+ftext, doc)
+	first := retrieve("$"+stepsText(steps), doc)
+	w.count("C08:function-splits", 1)
+	if whole.Panic != nil || first.Panic != nil {
+		w.viol("C08", "prefix-panics", "$"+stepsText(steps)+ftext, before, fmt.Sprint(whole.Panic, first.Panic), kinds, raw)
+		return
+	}
+	var concat []interface{}
+	for _, v := range first.Vals {
+		part := retrieve("$"+ftext, v)
+		if part.Panic != nil {
+			w.viol("C08", "continuation-panics", "$"+ftext, snap(v), fmt.Sprint(part.Panic), kinds, raw)
+			return
+		}
+		concat = append(concat, part.Vals...)
+	}
+	ok := true
+	if len(concat) == 0 {
+		ok = whole.Err != nil
+	} else {
+		ok = whole.Err == nil && reflect.DeepEqual(whole.Vals, concat)
+	}
+	if !ok {
+		w.viol("C08", "composition-law", "$"+stepsText(steps)+ftext, before,
+			fmt.Sprintf("P=$%s Q=$%s: whole path gives %s, concatenation gives %s", stepsText(steps), ftext, whole, resp{Vals: concat}), kinds, raw)
+	}
 }
